@@ -578,10 +578,24 @@ def exR : St := ((next ex0.store 10 ((next ex0.store 10 (init 0 true false false
 example : (next ex0.store 10 exR).2 = some 4 := by decide
 example : (next ex0.store 10 (send true exR)).2 = some 2 := by decide
 
-/-! ### The walk root is the exception (finding C15-F1): its restart after `send(True)` uses the AST read before the
-yield.  Full statement that fails: "after replacing the walk root in its leaving yield and `send(True)`, the new
-children are walked".  Witness: `[a]` (ids 0 = list, 1 = a) walked with `on='leave'`; at the root's yield the consumer
+/-! ### The walk root (finding C15-F1, fixed): its restart after `send(True)` rereads `self.a` like every other node.
+Witness of the former failure: `[a]` (ids 0 = list, 1 = a) walked with `on='leave'`; at the root's yield the consumer
 replaces it by `[x, y]` (fresh ids 2, 3, 4; FST 0 kept) and sends `True`. -/
+
+/-- **root_rewalk_children** (`replaced_children_next` for the walk root of `on='leave'` under `send(True)`): the
+restart pushes the children of the AST the root FST carries NOW. -/
+theorem root_rewalk_children {σ : Store} {back : Bool} {g : LB.Gen} {x0 x : AstId}
+    (hs : g.ctl = .rootLeave x0 true) (hx : σ.a g.root = some x) (hk : LB.items back (σ.kids x) ≠ []) :
+    LB.stepLeave σ back g = ({ g with stack := LB.items back (σ.kids x), ctl := .running }, none) := by
+  unfold LB.stepLeave
+  rw [hs]
+  simp only [if_true, hx]
+
+/-- the same for `on='both'`: the root is queued for entry again on its current AST, unconditionally recursing -/
+theorem root_rewalk_both {σ : Store} {back : Bool} {g : LB.Gen} {x0 x : AstId}
+    (hs : g.ctl = .rootLeave x0 true) (hx : σ.a g.root = some x) :
+    (LB.stepBoth σ back g).g = { g with stack := [.ast x], selfFlag := false, recurse := true, ctl := .running } := by
+  simp [LB.stepBoth, hs, hx]
 
 def rw0 : CStore := { tree := .mk 0 0 1 true [.mk 1 1 2 true []], next := 2 }
 def rw1 : CStore := rw0.apply (.replace 0 (.mk 1 true [.mk 2 true [], .mk 2 true []]))
@@ -591,9 +605,17 @@ def rwS : LB.St := (LB.next rw0.store 20 (LB.next rw0.store 20 (LB.init true 0 t
 example : (LB.next rw0.store 20 (LB.next rw0.store 20 (LB.init true 0 true true false)).1).2 = some (0, true) := by decide
 example : rw1.store.kids 2 = [3, 4] ∧ rw1.store.a 0 = some 2 := by decide
 
-/-- the next yield is the root again, and then the walk is over: the new children 3, 4 are never yielded -/
-theorem root_rewalk_new_children_false :
-    (LB.next rw1.store 20 (LB.send true rwS)).2 = some (0, true) ∧
-    (LB.next rw1.store 20 (LB.next rw1.store 20 (LB.send true rwS)).1).2 = none := by decide
+/-- the next `n` yields of a leave/both walk on a fixed store -/
+def collect (σ : Store) (fuel : Nat) : Nat → LB.St → List LB.Ev
+  | 0, _ => []
+  | n + 1, s =>
+    match LB.next σ fuel s with
+    | (s', some e) => e :: collect σ fuel n s'
+    | (_, none) => []
+
+/-- **root_rewalk_new_children.** On the witness the new children 3, 4 are yielded next, then the root again, then the
+walk is over. -/
+theorem root_rewalk_new_children :
+    collect rw1.store 8 5 (LB.send true rwS) = [(3, true), (4, true), (0, true)] := by decide +kernel
 
 end Pfst.C15
